@@ -36,6 +36,9 @@ func init() {
 			{Name: "faults", N: constN(600, 20000), Gen: genModelCase, Eval: c07EvalFaults},
 			{Name: "skeleton-twins", N: constN(30000, 900000), Gen: c07GenSkeleton, Eval: c07EvalSkeleton},
 			{Name: "unused-macro-anywhere", N: constN(1500, 50000), Gen: genModelCase, Eval: c07EvalUnusedAnywhere},
+			{Name: "arranged-twins", N: func(string) int { return len(c07Arranged()) }, Gen: func(r *xrand.Rand, idx int, tier string) *fw.Case {
+				return &fw.Case{Ints: map[string]int{"i": idx}, Docs: []run.Doc{{}}}
+			}, Eval: c07EvalArranged},
 		},
 		Floors: map[string]int64{"twins_compared": 3000, "cyclic_graphs": 300},
 	})
@@ -608,5 +611,101 @@ func c07EvalUnusedAnywhere(t *fw.T, c *fw.Case) {
 			return
 		}
 		t.Distinct("unused " + v.where)
+	}
+}
+
+
+// ---- arranged twins: arrangements that random extraction meets too rarely ----
+
+type c07Twin struct{ name, body, host string }
+
+// c07Arranged: a macro body and a host text with the marker <P> where the body is pasted (the in-place twin has the
+// body's text there). Bodies pasted twice (declarations, Path directives for one prefix), long bodies (more than ten
+// directives at one level), pastes under different kinds of hosts.
+func c07Arranged() []c07Twin {
+	many := func(n int, f func(i int) string) string {
+		var sb strings.Builder
+		for i := 0; i < n; i++ {
+			sb.WriteString(f(i))
+		}
+		return sb.String()
+	}
+	var out []c07Twin
+	out = append(out,
+		c07Twin{"path-under-two-hosts-sharing-the-prefix", "Path\n  {\"id\": 1}\n", "URL /a/{id}\n  <P>  GET\n    200 any\nGET /a/{id}/x\n  <P>  200 any\n"},
+		c07Twin{"path-under-two-hosts-with-different-prefixes", "Path\n  {\"id\": 1}\n", "URL /a/{id}\n  <P>  GET\n    200 any\nGET /b/{id}/x\n  <P>  200 any\n"},
+		c07Twin{"enum-pasted-twice", "ENUM @size\n  [\"S\", \"M\"]\n", "<P>GET /a\n  200 any\n<P>"},
+		c07Twin{"enum-pasted-once", "ENUM @size\n  [\"S\", \"M\"]\n", "<P>GET /a\n  200\n    \"S\" // {enum: @size}\n"},
+		c07Twin{"type-pasted-twice", "TYPE @t\n  {\"a\": 1}\n", "<P>GET /a\n  200 @t\n<P>"},
+		c07Twin{"tag-pasted-twice", "TAG @g\n", "<P>GET /a\n  Tags @g\n  200 any\n<P>"},
+		c07Twin{"server-pasted-twice", "SERVER @s\n  BaseUrl \"https://a/\"\n", "<P>GET /a\n  200 any\n<P>"},
+		c07Twin{"method-pasted-twice", "GET /a\n  200 any\n", "<P>TYPE @t any\n<P>"},
+		c07Twin{"response-pasted-twice", "200 any\n", "GET /a\n  <P>  <P>"},
+		c07Twin{"description-pasted-twice", "Description\n  (\n  text\n  )\n", "GET /a\n  <P>  <P>  200 any\n"},
+		c07Twin{"headers-pasted-under-request-and-response", "Headers\n  {\"h\": \"v\"}\n", "POST /a\n  Request\n    <P>    Body any\n  200\n    <P>    Body any\n"},
+	)
+	for _, n := range []int{10, 11, 12, 21, 35} {
+		nn := n
+		out = append(out,
+			c07Twin{fmt.Sprintf("%d-methods-at-top-level", n), many(nn, func(i int) string { return fmt.Sprintf("GET /m%d\n  200 any\n", i) }), "TYPE @t any\n<P>POST /after\n  Request any\n  200 any\n"},
+			c07Twin{fmt.Sprintf("%d-responses-under-a-method", n), many(nn, func(i int) string { return fmt.Sprintf("%d any // r%d\n", 200+i, i) }), "GET /a\n  <P>GET /b\n  200 any\n"},
+			c07Twin{fmt.Sprintf("%d-types", n), many(nn, func(i int) string { return fmt.Sprintf("TYPE @t%d\n  {\"k%d\": %d}\n", i, i, i) }), "<P>GET /a\n  200 @t0\n"},
+			c07Twin{fmt.Sprintf("%d-methods-under-a-url", n), many(nn, func(i int) string { return []string{"GET", "POST", "PUT", "PATCH", "DELETE"}[i%5] + fmt.Sprintf(" /u/x%d\n  200 any\n", i) }), "URL /u\n  GET\n    200 any\n<P>"},
+		)
+	}
+	return out
+}
+
+func c07EvalArranged(t *fw.T, c *fw.Case) {
+	tw := c07Arranged()[c.Ints["i"]]
+	indent := func(body string, by string) string {
+		var sb strings.Builder
+		for _, l := range strings.Split(strings.TrimSuffix(body, "\n"), "\n") {
+			sb.WriteString(by + l + "\n")
+		}
+		return sb.String()
+	}
+	// in place: the body's lines at the indentation of the marker; macro form: PASTE @arr there, the definition first or last
+	var inPlace, macroForm strings.Builder
+	for _, seg := range strings.SplitAfter(tw.host, "<P>") {
+		if !strings.HasSuffix(seg, "<P>") {
+			inPlace.WriteString(seg)
+			macroForm.WriteString(seg)
+			continue
+		}
+		seg = strings.TrimSuffix(seg, "<P>")
+		ls := strings.LastIndexByte(seg, '\n') + 1
+		by := seg[ls:]
+		inPlace.WriteString(seg[:ls] + indent(tw.body, by))
+		macroForm.WriteString(seg + "PASTE @arr\n")
+	}
+	def := "MACRO @arr\n(\n" + indent(tw.body, "  ") + ")\n"
+	for k, mf := range []string{"JSIGHT 0.3\n" + def + macroForm.String(), "JSIGHT 0.3\n" + macroForm.String() + def} {
+		dm := run.Single([]byte(mf))
+		di := run.Single([]byte("JSIGHT 0.3\n" + inPlace.String()))
+		dm.FixedSeed, di.FixedSeed = true, true
+		c.Docs = []run.Doc{dm, di}
+		om, oi := t.Exec(dm), t.Exec(di)
+		t.Count("twins_compared")
+		t.Count("arranged_twins_compared")
+		if om.Outcome == run.Rejected && oi.Outcome == run.Accepted && !run.RuntimeFaultText(om.ErrText) {
+			t.Count("macro_form_rejected_expansion_accepted_not_judged")
+			continue
+		}
+		if om.Outcome != oi.Outcome {
+			t.Violation("verdict-differs:"+om.Outcome+"-vs-"+oi.Outcome+":"+rejMsg(om, oi), fmt.Sprintf("arrangement %s: macro form %s | in-place form %s\n--- macro form\n%s\n--- in-place form\n%s", tw.name, describe(om), describe(oi), mf, "JSIGHT 0.3\n"+inPlace.String()))
+			return
+		}
+		if om.Outcome == run.Accepted && !bytes.Equal(om.JSON, oi.JSON) {
+			where := ""
+			if a, e1 := jsonx.Parse(om.JSON); e1 == nil {
+				if b, e2 := jsonx.Parse(oi.JSON); e2 == nil {
+					where = jsonx.Diff(a.Root, b.Root, "$")
+				}
+			}
+			t.Violation("catalog-differs:"+diffClass(where), fmt.Sprintf("arrangement %s: pasting differs from writing the body in place: %s\n--- macro form\n%s", tw.name, where, mf))
+			return
+		}
+		t.Distinct(fmt.Sprintf("arranged %s def%d %s", tw.name, k, om.Outcome))
 	}
 }
